@@ -170,7 +170,7 @@ def search(acc: Acc, tier, shard, nshards):
         # forbid chars are those of the *output* quotes
         forbid = "".join(quotes)
         prof = model.Profile(max_depth=4, max_items=6, forbid=forbid, lookalike_multi=False)
-        doc = model.Gen(ch, prof).document()
+        doc = model.any_document(model.Gen(ch, prof))
         text = render.render(doc).text
         try:
             d = W.loads(text)
